@@ -422,7 +422,16 @@ class Ctx:
             cov["obligations"] = self.proof.obligations
             cov["discharged"] = self.proof.discharged
             cov["axioms"] = self.proof.axioms
-        cov.update(self.extra)
+        # extras never override or mistype the keys the evidence schema reserves
+        reserved_int = {"evaluations", "distinct_nontrivial", "states", "transitions", "traces_validated_against_impl",
+                        "obligations", "discharged", "programs", "disagreements_checked"}
+        reserved_other = {"rule", "samples", "checker_cmd", "trusted_base", "explanation", "exhaustive"}
+        for k, v in self.extra.items():
+            if (k in reserved_int and not (isinstance(v, int) and not isinstance(v, bool) and v >= 0)) or \
+                    (k in reserved_other and k in cov):
+                cov[k + "_detail"] = v
+            else:
+                cov[k] = v
         ev = {
             "property_id": self.prop,
             "tier": self.tier,
